@@ -249,8 +249,10 @@ def gen_corr(ctx):
     meas_lays = [(ml, mc, mq) for ml in range(0, 4) for mc in range(0, 2) for mq in (0, 1) if not (mq == 1 and mc == 0) and dcov_of(ml, mc, mq) >= 1]
     for (dl, dc, q) in state_lays:
         for (ml, mc, mq) in meas_lays:
-            if ctx.tier != "thorough" and (dl + 2 * dc + 3 * q + ml + mc + mq) % 3 != ctx.seed % 3 and not (q or mq):
+            if ctx.tier != "thorough" and (dl + 2 * dc + 3 * q + ml + mc + mq) % 3 != ctx.seed % 3:
                 continue
+            if ctx.tier != "thorough" and (q or mq) and (dl + ml + dc) % 4 != ctx.seed % 4:
+                continue        # quaternion configurations abort (known findings): a sample is enough in the quick tier, each costs a process start
             K = 1 + (dl + ml) % 2
             tot, dof = dim_of(ml, mc, mq), dcov_of(ml, mc, mq)
             st = "%d %s %d %s" % (K, lay(dl, dc, q), K, lay(dl, dc, q))
